@@ -274,6 +274,38 @@ def real_cases(ctx, rng, nmul):
                           "x": le(x), "w": le(w), "cert": cong(w * w + v, 0, P256) if name.startswith("nonres") else {"k": [], "neg": False, "exact": True},
                           "vcert": cong(x * x * x + 7, v, P256), "v": le(v)})
             ctx.nontriv(("reject", name))
+    # coordinates that are not field elements although they reduce to a curve point mod p: x + p and y + p for the points with
+    # tiny x (x = 1, 2, 3, ...) and tiny y (y = 1, 6, 11, ...), in every encoding
+    small = []
+    for x in range(1, 9):
+        v = (x ** 3 + 7) % P256
+        if pow(v, (P256 - 1) // 2, P256) == 1:
+            y = pow(v, (P256 + 1) // 4, P256)
+            small.append((x, y))
+            small.append((x, P256 - y))
+    for y in (1, 6, 11, 13):
+        a_ = (y * y - 7) % P256
+        x = pow(a_, (P256 + 2) // 9, P256)
+        if pow(x, 3, P256) == a_:
+            small.append((x, y))
+    for si_, (x, y) in enumerate(small[:10]):
+        forms = []
+        if x + P256 < 2 ** 256:
+            forms += [("04-x>=p", b"\x04" + (x + P256).to_bytes(32, "big") + y.to_bytes(32, "big")), ("x>=p", bytes([2 + (y & 1)]) + (x + P256).to_bytes(32, "big")),
+                      ("xonly>=p", (x + P256).to_bytes(32, "big"))]
+        if y + P256 < 2 ** 256:
+            forms += [("04-y>=p", b"\x04" + x.to_bytes(32, "big") + (y + P256).to_bytes(32, "big"))]
+        if x + P256 < 2 ** 256 and y + P256 < 2 ** 256:
+            forms += [("04-x>=p", b"\x04" + (x + P256).to_bytes(32, "big") + (y + P256).to_bytes(32, "big"))]
+        for fi_, (name, raw) in enumerate(forms):
+            got = outcome(pecc.S256Point.parse if len(raw) != 32 else pecc.S256Point.parse_xonly, raw)
+            cases.append({"id": "big%d.%d.%s" % (si_, fi_, name), "kind": "reject", "why": name, "raw": B(raw), "accepted": got[0] == "ok" and got[1].x is not None,
+                          "x": [], "w": [], "cert": {"k": [], "neg": False, "exact": True}, "vcert": {"k": [], "neg": False, "exact": True}, "v": []})
+            ctx.nontriv(("reject-reducible", name))
+        # the honest encodings of these points are accepted (so that the rejections above are about the range, not the point)
+        for raw in (b"\x04" + x.to_bytes(32, "big") + y.to_bytes(32, "big"), bytes([2 + (y & 1)]) + x.to_bytes(32, "big")):
+            got = outcome(lambda: proj(pecc.S256Point.parse(raw)))
+            cases.append({"id": "small%d.%d" % (si_, len(raw)), "kind": "ident", "lhs": jp(got[1]) if got[0] == "ok" and got[1] else [], "rhs": jp((x, y))})
     return cases
 
 
